@@ -352,6 +352,7 @@ func main() {
 	close(jobs)
 	wg.Wait()
 	gates(run, hb, root)
+	slowReaders(run, hb)
 	p.Stop()
 	origin.Close()
 	run.Floor("responses_compared", int64(nConns*2))
